@@ -6,7 +6,8 @@
 (* iff every event is consumed by the specification's own actions:            *)
 (* Bootstrap for the first, EpochRel for each of the others (the ghost        *)
 (* variable `used` is existentially quantified: some injective choice of      *)
-(* bootstrap positions per member must explain the recorded tensor).          *)
+(* bootstrap positions per member must explain the recorded tensor; a         *)
+(* canonical candidate is constructed and checked by EpochRel itself).        *)
 (* Constants (E, N, train_size, B) are fixed per TLC run; all traces of that  *)
 (* configuration are validated in one run.                                    *)
 EXTENDS EnsembleBoot, IOUtils
@@ -29,16 +30,25 @@ TBootstrap == /\ pos = 0
 ShapeOK(rec) == /\ Len(rec) = NBatch
                 /\ \A k \in 1..Len(rec) : /\ Len(rec[k]) = E
                                           /\ \A e \in 1..E : Len(rec[k][e]) = B
-Explains(e, s, rec) == \A k \in 1..NBatch : \A b \in 1..B : rec[k][e][b] = boot[e][s[(k - 1) * B + b]]
-Explainable(rec) == ShapeOK(rec) /\ \A e \in Members : \E s \in InjSeqs(NB, Kept) : Explains(e, s, rec)
+(* the data indices handed to member e in this epoch, in batch order *)
+FlatRec(e, rec) == [t \in 1..Kept |-> rec[((t - 1) \div B) + 1][e][((t - 1) % B) + 1]]
+(* Candidate witness for the ghost variable: the r-th use of data index v takes the r-th bootstrap position   *)
+(* holding v (0 if member e's bootstrap sample holds v fewer than r times).  If ANY injective choice of      *)
+(* positions explains the tensor, this one does (counting argument); whether it does is decided by EpochRel. *)
+NthPos(e, v, r) == LET ps == {p \in 1..NB : boot[e][p] = v /\ Cardinality({q \in 1..p : boot[e][q] = v}) = r}
+                   IN IF ps = {} THEN 0 ELSE CHOOSE p \in ps : TRUE
+Candidate(e, rec) == LET f == FlatRec(e, rec)
+                     IN [t \in 1..Kept |-> NthPos(e, f[t], Cardinality({u \in 1..t : f[u] = f[t]}))]
 
 (* event pos >= 1: the index tensor of epoch `pos` *)
 TEpoch == /\ pos >= 1 /\ pos <= Len(T.epochs)
-          /\ LET rec == T.epochs[pos] IN
-               /\ Explainable(rec)
-               /\ used' = [e \in Members |-> CHOOSE s \in InjSeqs(NB, Kept) : Explains(e, s, rec)]
-               /\ batches' = rec
-          /\ EpochRel                             \* all primed variables are fixed: the spec's relation is checked
+          /\ LET rec == T.epochs[pos]
+             IN IF ShapeOK(rec)                    \* (IF: evaluated as a state predicate)
+                THEN /\ used' = [e \in Members |-> Candidate(e, rec)]
+                     /\ batches' = rec
+                ELSE FALSE
+          /\ EpochRel                             \* the specification's relation: positions in range, injective, and
+                                                  \* batches' = BatchesOf(boot, used')
           /\ pos' = pos + 1 /\ UNCHANGED tid
           /\ PrintT(<<"POS", tid, pos + 1>>)
 
